@@ -257,6 +257,13 @@ def run(ctx, driver):
         for (case, res, orc), a in zip(ops, ans):
             ctx.count("corr_from-function")
             impl = {"order": res["shape"]["order"]} if "shape" in res else {"error": res.get("shape_error")}
+            if str(impl.get("error", "")).startswith("other:"):
+                # an exception escaped from one of the SymPy calls that the model treats as total oracles (seen: `log(1 + t)` - printing an integer of more
+                # than 4300 digits raises ValueError in Python 3.12): the function is rejected, which the property allows; the recorded answers stop
+                # in the middle of the control flow, so there is nothing to compare the model's run with
+                ctx.count("from_function_oracle_raised")
+                ctx.cov.setdefault("oracle_raised", []).append({"f": case["f"], "error": impl["error"]})
+                continue
             attempted = len(orc["invertible"]) - 2          # orders 2, 3, ... for which from_function asked its oracles
             if impl.get("error") == "no-ode" and attempted != max_order - 1:
                 ctx.tie_break("corr:from-function", {"case": case["f"], "note": "the search gave up after trying %d higher orders; the model (max_order=%d from the source's default) tries %d" % (attempted, max_order, max_order - 1)})
